@@ -297,6 +297,9 @@ impl Node {
                         {
                             tracing::error!("Failed to route message: {}", e);
                         }
+                        #[cfg(edp_rs_verif)]
+                        edp_client::verif::point(format!("rx:{}", remote_node), "rx.routed", "")
+                            .await;
                     }
                     Err(e) => {
                         // errors about the content of one complete frame leave the stream intact
